@@ -30,7 +30,7 @@ Amb(r, exp, f) == IF Ambiguous(r, exp) THEN f \o "-ambiguous" ELSE f
 
 Flags(r) ==
   IF r.note # "" THEN {"abnormal:" \o r.note}
-  ELSE LET exp == Run(Start(r.cmd, r.frames, Announced(r))) IN
+  ELSE LET exp == Run(StartW(r.cmd, r.frames, Announced(r), IF "wfail" \in DOMAIN r THEN r.wfail ELSE 0)) IN
        IF r.obs = exp.log /\ r.obs_left = Left(exp) THEN {}
        ELSE {"differs"}
             \cup (IF CmdOnceFirst(r.obs) THEN {} ELSE {"P05-cmd-once-first"})
